@@ -92,7 +92,7 @@ def setup(tier, seed):
         'jobs': jobs,
         'tolerant_jobs': True,
         'min_encoded': 60,
-        'budget_s': 780 if tier == 'quick' else 3300,
+        'budget_s': 780 if tier == 'quick' else 2700,
         'explanation': 'every public indicator with a sequential parameter runs on n symbolic candles (OHLCV reals) through a numpy shim and the python '
                        'source of its numba kernels: f(candles, sequential=True) and f(candles[:k], sequential=True) for every k on the same path; for '
                        'every output field and j < k z3 proves full[j] == prefix[j] (NaN pattern compared concretely). Transcendental functions are '
